@@ -149,7 +149,7 @@ func execSync(t *testing.T, tr *vrt.Tracer, sc syncScenario, ex *vrt.Explorer) {
 		for p := range inflight {
 			blocked = append(blocked, p)
 		}
-		tr.Emit(vrt.M{"ev": "quiesce", "blocked": blocked, "count": b.Count(), "sched": ex.Trail()})
+		tr.Emit(vrt.M{"ev": "quiesce", "blocked": blocked, "count": b.Count(), "sched": ex.Trail(), "fine": vrt.IsFine()})
 		over = true
 		mu.Unlock()
 		// clean up: let everything finish so that the bubble can end
@@ -167,6 +167,7 @@ func TestVerifBufferSync(t *testing.T) {
 	defer tr.Close()
 	budget := vrt.EnvInt("VERIF_BUDGET", 1500)
 	nrand := vrt.EnvInt("VERIF_RANDOM", 500)
+	nfine := vrt.EnvInt("VERIF_FINE", nrand/2)
 	rng := rand.New(rand.NewSource(vrt.Seed())) //nolint:gosec
 	stats := map[string][3]int{}
 	vrt.ReadScenarios(func(line []byte) {
@@ -194,6 +195,15 @@ func TestVerifBufferSync(t *testing.T) {
 				execSync(t, tr, sc, rex)
 			}
 		}
+		// fine-grained schedules (gates inside critical sections, locks taken cooperatively): random only
+		vrt.SetFine(true)
+		fex := &vrt.Explorer{Random: true, Rng: rng}
+		for k := 0; k < nfine; k++ {
+			fex.Begin()
+			execSync(t, tr, sc, fex)
+			nr++
+		}
+		vrt.SetFine(false)
 		e := 0
 		if exhausted {
 			e = 1
@@ -214,6 +224,7 @@ func TestVerifBufferSyncReplay(t *testing.T) {
 	var rp struct {
 		Scenario syncScenario `json:"scenario"`
 		Sched    []int        `json:"sched"`
+		Fine     bool         `json:"fine"`
 	}
 	b, err := os.ReadFile(os.Getenv("VERIF_REPLAY"))
 	if err != nil {
@@ -225,7 +236,9 @@ func TestVerifBufferSyncReplay(t *testing.T) {
 	ex := &vrt.Explorer{}
 	ex.SetPrefix(rp.Sched)
 	ex.Begin()
+	vrt.SetFine(rp.Fine)
 	execSync(t, tr, rp.Scenario, ex)
+	vrt.SetFine(false)
 }
 
 // TestVerifBufferConcurrent: free-running writers and readers on a small ring (real parallelism,
